@@ -42,6 +42,24 @@ class C:
         self.own = 'text'
     def c_method(self):
         return self
+class Rd:
+    def read(self):
+        return 'r'
+class Wr:
+    write_mode = 'w'
+    def __init__(self):
+        self.written = 0
+    def write(self):
+        return self.written
+class Stm(Rd, Wr):
+    def both(self):
+        return self
+class Lg:
+    def log(self):
+        return 1
+class LgStm(Lg, Stm):
+    def ls_only(self):
+        return self
 def ident(p):
     return p
 def second(p, q):
@@ -63,6 +81,12 @@ def closure(p):
 def gen_two(p, q):
     yield p
     yield q
+def gen_loop(p, q):
+    for item in (p, q):
+        yield item
+def relay(p, q):
+    for item in gen_loop(p, q):
+        yield item
 def passthrough(fn):
     @functools.wraps(fn)
     def wrapper(*args, **kwargs):
@@ -89,7 +113,7 @@ def doc_typed(p):
     return C()
 '''
 
-ATOMS = ["A()", "B()", "C()", "1", "'s'", "2.5", "A(1)", "B('t')", "[1, 2]", "{'k': 1}",
+ATOMS = ["A()", "B()", "C()", "LgStm()", "Stm()", "1", "'s'", "2.5", "A(1)", "B('t')", "[1, 2]", "{'k': 1}",
          "(1, 's')", "None", "True"]
 
 # (tag, template, merges?)   {v} new variable, {x} {y} inputs, {n} serial
@@ -110,6 +134,13 @@ FORMS = [
     ('gen_for', 'for {v} in gen_two({x}, {y}): pass', True),
     ('gen_list', '{v} = list(gen_two({x}, {y}))[0]', True),
     ('gen_next', '{v} = next(gen_two({x}, {y}))', True),
+    ('gen_unpack', '_g{n}, {v} = gen_two({x}, {y})', False),
+    ('loop_unpack', '{v}, _g{n} = gen_loop({x}, {y})', False),
+    ('relay_unpack', '_g{n}, {v} = relay({x}, {y})', False),
+    ('star_call', '{v} = second(*gen_loop({x}, {y}))', False),
+    ('star_list', '{v} = second(*[{x}, {y}])', False),
+    ('mi_method', '{v} = LgStm().both()', False),
+    ('mi_attr', '{v} = LgStm().write_mode', False),
     ('deco', '{v} = deco_ident({x})', False),
     ('deco2', '{v} = deco2_ident({x})', False),
     ('narrow', '{v} = narrow({x})', True),
@@ -166,7 +197,8 @@ EXACT_FORMS = {'ident', 'second', 'pair0', 'pair1', 'unpack', 'kwonly', 'closure
                'deco2', 'annot', 'doc', 'attr_init', 'method', 'prop', 'me', 'clsm_sub', 'call',
                'cattr', 'own', 'cmeth', 'list_idx', 'tuple_idx', 'dict_key', 'nested', 'alias',
                'walrus', 'arith', 'arith_f', 'strmeth', 'strfmt', 'builtin_len', 'cls_ref', 'fn_ref',
-               'kwv', 'star'}
+               'kwv', 'star', 'gen_unpack', 'loop_unpack', 'relay_unpack', 'star_call', 'star_list',
+               'mi_method', 'mi_attr'}
 
 
 class Builder:
@@ -198,7 +230,7 @@ class Builder:
         for _ in range(nstmts):
             self.stmt()
         if self.multi:
-            head = self.r.choice(['from lib import *', 'from lib import A, B, C, ident, second, pair, '
+            head = self.r.choice(['from lib import *', 'from lib import A, B, C, LgStm, Stm, gen_loop, relay, ident, second, pair, '
                                   'dflt, star, kwv, kwonly, closure, gen_two, deco_ident, deco2_ident, '
                                   'narrow, annotated, doc_typed'])
             files = {'lib.py': LIB, 'main.py': head + '\n' + '\n'.join(self.lines) + '\n'}
